@@ -54,7 +54,8 @@ structure FCfg where
   l : LCfg
   arm : Option Arm := none
   fired : Bool := false
-  rep : List (Req × RetV) := []       -- newest first: what the requests issued by listeners returned / raised
+  called : Nat := 0                   -- `_called`, the counter of `call_with_super_check` / `super_check`
+  rep : List (Req × RetV) := []       -- newest first: the requests issued by listeners that RAISED (the listener is the requester)
 
 abbrev Res := FCfg × Option Exc
 
@@ -70,21 +71,44 @@ def bind (r : Res) (k : FCfg → Res) : Res :=
   | (x, none) => k x
   | (x, some e) => (x, some e)
 
-/-- a user override of hook `hk` around the base implementation `base`: the call is counted on entry; the armed call
-raises before calling `super()` or after it returned (if `super()` itself raised, that exception propagates) -/
+/-- a user hook is called through `call_with_super_check(self.on_x)`:
+```
+call_count = self._called; self._called = call_count + 1
+self.on_x()            # the user override: [raise]; super().on_x(); [raise]
+assert self._called == call_count
+```
+and the base implementation is wrapped by `super_check`: `assert self._called >= 1; base(); self._called -= 1`.
+The call of the override is counted on entry; the armed call raises before calling `super()` or after it returned (if `super()`
+itself raised, that exception propagates).  Neither wrapper is exception-safe: an override that raises BEFORE calling `super()`
+leaves `_called` one too high, and a hook call that is in progress around it (`on_paused` / `on_playing` / `on_running` whose
+listeners made the request that led here) then fails its own final assertion although its base implementation ran. -/
 def hookF (hk : HK) (base : FCfg → Res) (x : FCfg) : Res :=
-  match x.arm with
-  | none => base x
-  | some a =>
-    if a.hk = hk then
-      if a.left = 0 then
-        if a.after then
-          match base { x with arm := none } with
-          | (y, none) => ({ y with fired := true }, some faultExc)
-          | (y, some e) => (y, some e)
-        else ({ x with arm := none, fired := true }, some faultExc)
-      else base { x with arm := some { a with left := a.left - 1 } }
-    else base x
+  let cc := x.called
+  let x := { x with called := cc + 1 }
+  let sup (x : FCfg) : Res :=                       -- `super().on_x()` through the `super_check` wrapper
+    if hk = .onTerminated then
+      -- `Process.on_terminated` is not wrapped itself: it calls the (empty, wrapped) `StateMachine.on_terminated` first
+      base { x with called := x.called - 1 }
+    else
+    match base x with
+    | (y, none) => ({ y with called := y.called - 1 }, none)
+    | (y, some e) => (y, some e)
+  let r : Res :=
+    match x.arm with
+    | none => sup x
+    | some a =>
+      if a.hk = hk then
+        if a.left = 0 then
+          if a.after then
+            match sup { x with arm := none } with
+            | (y, none) => ({ y with fired := true }, some faultExc)
+            | (y, some e) => (y, some e)
+          else ({ x with arm := none, fired := true }, some faultExc)
+        else sup { x with arm := some { a with left := a.left - 1 } }
+      else sup x
+  match r with
+  | (y, none) => if y.called = cc then (y, none) else (y, some .assertion)
+  | (y, some e) => (y, some e)
 
 def enteredHK : SObj → Option HK
   | .running .. => some .onRunning | .waiting .. => some .onWaiting | .finished .. => some .onFinished
@@ -230,10 +254,15 @@ def failF (x : FCfg) (e : Exc) : FCfg × RetV :=
 
 /-- a request of the oracle: what it returns or raises goes to the listener that made it (the event helper swallows an
 exception a listener lets through) -/
+def logRep (q : Req) (r : FCfg × RetV) : FCfg :=
+  match r.2 with
+  | .raised _ => { r.1 with rep := (q, r.2) :: r.1.rep }
+  | _ => r.1
+
 def reqKF : Req → FCfg → FCfg
-  | .pause, x => let r := pauseF N x; { r.1 with rep := (.pause, r.2) :: r.1.rep }
-  | .play, x => let r := playF N x; { r.1 with rep := (.play, r.2) :: r.1.rep }
-  | .kill, x => let r := killF N x; { r.1 with rep := (.kill, r.2) :: r.1.rep }
+  | .pause, x => logRep .pause (pauseF N x)
+  | .play, x => logRep .play (playF N x)
+  | .kill, x => logRep .kill (killF N x)
 
 /-! ### the closing part of `Process.step` -/
 
